@@ -73,6 +73,8 @@ pub struct Svc {
     pub d: Discv5,
     pub h: ScriptedHandler,
     pub events: Option<mpsc::Receiver<Event>>,
+    /// streams obtained by earlier `event_stream()` calls; the application keeps reading them
+    pub events_earlier: Vec<mpsc::Receiver<Event>>,
     pub key: CombinedKey,
     pub id: ids::Id,
     pub addr4: SocketAddr,
@@ -277,7 +279,7 @@ impl Svc {
         let id = enr.node_id().raw();
         let mut d = Discv5::new(enr, keys::key(cfg.key_idx), config).expect("discv5");
         let h = d.start_scripted().await.expect("scripted start");
-        let mut s = Svc { d, h, events: None, key, id, addr4: a4, addr6: a6, outbox: vec![], event_log: vec![], drain_events: true };
+        let mut s = Svc { d, h, events: None, events_earlier: vec![], key, id, addr4: a4, addr6: a6, outbox: vec![], event_log: vec![], drain_events: true };
         if cfg.register_events {
             let fut = s.d.event_stream();
             let rx = fut.await.expect("event stream");
@@ -300,16 +302,30 @@ impl Svc {
                 self.outbox.push(m);
                 progressed = true;
             }
-            if let (true, Some(rx)) = (self.drain_events, self.events.as_mut()) {
-                while let Ok(e) = rx.try_recv() {
-                    self.event_log.push(e);
-                    progressed = true;
+            if self.drain_events {
+                for rx in self.events_earlier.iter_mut().chain(self.events.as_mut()) {
+                    while let Ok(e) = rx.try_recv() {
+                        self.event_log.push(e);
+                        progressed = true;
+                    }
                 }
             }
             if !progressed {
                 break;
             }
         }
+    }
+
+    /// The application asks for the event stream once more (`Discv5::event_stream`) and keeps reading
+    /// the stream(s) it already had.
+    pub async fn resubscribe(&mut self) {
+        let fut = self.d.event_stream();
+        if let Ok(rx) = fut.await {
+            if let Some(old) = self.events.replace(rx) {
+                self.events_earlier.push(old);
+            }
+        }
+        self.settle().await;
     }
 
     pub fn take_outbox(&mut self) -> Vec<HandlerIn> {
